@@ -23,7 +23,7 @@ pub fn make_case(class: &str, seed: u64, case_no: u64) -> Case {
   if class.contains("multi") { gen::mutate_multi_checker(&mut rng, &mut prog); }
   if class.contains("faulty") { gen::mutate_faulty(&mut rng, &mut prog); }
   if class.contains("fc") { gen::add_arming(&mut rng, &prog, &mut steps); }
-  for (tag, what) in [("inj-hr", gen::Inject::HiddenRead), ("inj-hw", gen::Inject::HiddenWrite), ("inj-ov", gen::Inject::Overlap), ("inj-cy", gen::Inject::Cycle)] {
+  for (tag, what) in [("inj-hr", gen::Inject::HiddenRead), ("inj-hw", gen::Inject::HiddenWrite), ("inj-ov", gen::Inject::Overlap), ("inj-cy", gen::Inject::Cycle), ("inj-rw", gen::Inject::SelfRw)] {
     if class.contains(tag) { gen::inject(&mut rng, &mut prog, what); if rng.chance(1, 4) { gen::inject(&mut rng, &mut prog, what); } }
   }
   if class.contains("inj-up") { gen::inject(&mut rng, &mut prog, gen::Inject::UserPanic); }
